@@ -69,6 +69,10 @@ def _spec(draw):
         if mx > 0:
             cov = [[gen.r6(0.45 * (v / mx) / n_cov) for v in row] for row in cov]
     z = draw(gen.mat(gen.real(-3, 3), n_ids, base['n_dim']))
+    if max(abs(v) for row in cov for v in row) > 1e3:
+        # covariates in large units: an individual value exactly at its location makes the derivative with respect to
+        # a coefficient a rounding residue times the covariate (the true value is 0); no standard score is exactly 0
+        z = [[v if v != 0 else 0.5 for v in row] for row in z]
     U = draw(gen.mat(gen.real(-3, 3), n_ids, base['n_dim'])) if gen.chance(draw, 0.5) else None
     oor = None
     if gen.chance(draw, 0.06):
